@@ -1096,7 +1096,7 @@ func (m *Manager) updateTaskStatus(status *mesos.TaskStatus) {
 // Kill all tasks outside an environment (all unlocked tasks)
 func (m *Manager) Cleanup() (killed Tasks, running Tasks, err error) {
 	toKill := m.roster.filtered(func(t *Task) bool {
-		return !t.IsLocked()
+		return t.claimForKill()
 	})
 
 	killed, running, err = m.doKillTasks(toKill)
@@ -1107,12 +1107,12 @@ func (m *Manager) Cleanup() (killed Tasks, running Tasks, err error) {
 // If the task list includes locked tasks, TaskNotFoundError is returned.
 func (m *Manager) KillTasks(taskIds []string) (killed Tasks, running Tasks, err error) {
 	taskCanBeKilledFilter := func(t *Task) bool {
-		if t.IsLocked() || m.ackKilledTasks.ExpectsAck(t.taskId) {
+		if m.ackKilledTasks.ExpectsAck(t.taskId) {
 			return false
 		}
 		for _, id := range taskIds {
 			if t.taskId == id {
-				return true
+				return t.claimForKill() // false if locked
 			}
 		}
 		return false
